@@ -172,7 +172,9 @@ pub fn rustc_probe(r: &Row, idx: usize) -> Result<(), String> {
     let dir = format!("{}/work/probes", crate::driver::verif_dir());
     std::fs::create_dir_all(&dir).map_err(|e| e.to_string())?;
     for (bound, expect) in [("Send", r.w_send), ("Sync", r.w_sync)] {
-        let file = format!("{}/probe_{}_{}_{}.rs", dir, std::process::id(), idx, bound);
+        static UNIQ: std::sync::atomic::AtomicUsize = std::sync::atomic::AtomicUsize::new(0);
+        let u = UNIQ.fetch_add(1, std::sync::atomic::Ordering::Relaxed);
+        let file = format!("{}/probe_{}_{}_{}_{}.rs", dir, std::process::id(), idx, u, bound);
         let src = format!(
             "#![allow(deprecated, unused_imports, dead_code)]\nuse arc_swap::access::*;\nuse arc_swap::cache::{{Cache, MapCache}};\nuse arc_swap::strategy::test_strategies::FillFastSlots;\nuse arc_swap::strategy::DefaultStrategy;\nuse arc_swap::{{ArcSwapAny, Guard}};\nuse std::cell::Cell;\nuse std::marker::PhantomData;\nuse std::rc::Rc;\nuse std::sync::{{Arc, MutexGuard, RwLock}};\npub struct NotSendSync(PhantomData<MutexGuard<'static, u32>>);\npub struct Neither(PhantomData<*const u8>);\nfn needs<T: ?Sized + {}>() {{}}\nfn main() {{ needs::<{}>(); }}\n",
             bound, r.src
